@@ -21,6 +21,7 @@ package PKGNAME
 
 import (
 	"fmt"
+	"runtime"
 	"sort"
 	"strconv"
 	"strings"
@@ -58,12 +59,16 @@ type vfC13Step struct {
 	D      time.Duration
 	Flush  bool
 	Settle bool
+	OnDue  bool // Ch is replaced at run time by the channel whose deadline the preceding sleepToDeadline hit
 }
 
 func (s vfC13Step) String() string {
 	t := ""
 	if s.Settle {
 		t = "."
+	}
+	if s.OnDue {
+		s.Ch = "@due|" + s.Ch
 	}
 	switch s.Op {
 	case "add":
@@ -372,6 +377,7 @@ func vfC13Run(cfgs [][]ChannelBatchConfig, steps []vfC13Step, m *vfC13Model) str
 	}
 	now := time.Duration(0)
 	seen := 0
+	lastDue := ""
 	teardown := func() {
 		pcw.Close(false)
 		vfSettle()
@@ -379,6 +385,13 @@ func vfC13Run(cfgs [][]ChannelBatchConfig, steps []vfC13Step, m *vfC13Model) str
 	for i := range steps {
 		st := &steps[i]
 		from := now
+		if st.OnDue && lastDue != "" {
+			st.Ch = lastDue
+			if st.Op == "add" {
+				st.Item.Ch = lastDue
+				m.items[st.Item.ID] = st.Item
+			}
+		}
 		// statistics about the state the step starts from
 		for _, ch := range vfC13Chans {
 			for _, s := range m.frontier[ch] {
@@ -408,10 +421,12 @@ func vfC13Run(cfgs [][]ChannelBatchConfig, steps []vfC13Step, m *vfC13Model) str
 			now += st.D
 		case "deadline":
 			d := time.Duration(-1)
+			lastDue = ""
 			for _, ch := range vfC13Chans {
 				for _, s := range m.frontier[ch] {
 					if s.armed && s.deadline > now && (d < 0 || s.deadline-now < d) {
 						d = s.deadline - now
+						lastDue = ch
 					}
 				}
 			}
@@ -526,6 +541,9 @@ func vfC13Run(cfgs [][]ChannelBatchConfig, steps []vfC13Step, m *vfC13Model) str
 }
 
 func TestVF_C13(t *testing.T) {
+	// Two Ps are enough for the only race of interest here (harness goroutine vs. a waitTimer goroutine) and make
+	// the many cross-thread goroutine hand-offs of a bubble several times cheaper than with all cores.
+	defer runtime.GOMAXPROCS(runtime.GOMAXPROCS(2))
 	vfCheck(t, "C13", func(rt *rapid.T, c *vfCase) string {
 		cfgs := make([][]ChannelBatchConfig, len(vfC13Chans))
 		var sb strings.Builder
@@ -556,8 +574,25 @@ func TestVF_C13(t *testing.T) {
 			case r < 76:
 				st.Op = "sleep"
 				st.D = rapid.SampledFrom(vfC13Sleeps).Draw(rt, "d")
-			case r < 90:
+			case r < 84:
 				st.Op = "deadline"
+			case r < 90:
+				// race: sleep exactly to a deadline without waiting for quiescence, then operate on that channel
+				steps = append(steps, vfC13Step{Op: "deadline"})
+				st.OnDue = true
+				st.Ch = vfC13Chans[rapid.IntRange(0, nch-1).Draw(rt, "ch")]
+				switch k := rapid.IntRange(0, 9).Draw(rt, "dueop"); {
+				case k < 7:
+					st.Op = "add"
+					st.Item = vfC13GenItem(rt, id, st.Ch)
+					id++
+				case k < 9:
+					st.Op = "del"
+					st.Flush = rapid.Bool().Draw(rt, "flush")
+				default:
+					st.Op = "close"
+					st.Flush = rapid.Bool().Draw(rt, "flush")
+				}
 			case r < 97:
 				st.Op = "del"
 				st.Ch = vfC13Chans[rapid.IntRange(0, nch-1).Draw(rt, "ch")]
